@@ -319,7 +319,9 @@ class GPTNeoXKFACPreconditioner(BaseKFACPreconditioner):
         compute_inverses: bool = True,
     ) -> None:
         """Load state dict."""
-        layers = state_dict.pop('layers', None)
+        # Leave the caller's state dict intact so that it can be loaded again.
+        layers = state_dict.get('layers', None)
+        state_dict = {k: v for k, v in state_dict.items() if k != 'layers'}
         super().load_state_dict(state_dict, compute_inverses=False)
 
         if self.factor_checkpoint_dir is not None:
